@@ -9,6 +9,7 @@ import glob
 import os
 import re
 import resource
+import shutil
 import signal
 import subprocess
 import tempfile
@@ -178,6 +179,20 @@ def generated(quick):
 
     def add(label, text):
         fam.append((label, text.encode() if isinstance(text, str) else text))
+    # every complete, truncated and malformed UTF-8 sequence at the start, in the middle and at the very end of every kind of literal
+    for pre in ('', 'L', 'u', 'U', 'u8'):
+        for q, decl in (('"', 'char s[] = '), ("'", 'int c = ')):
+            for lead in (0xc2, 0xdf, 0xe0, 0xe1, 0xed, 0xef, 0xf0, 0xf1, 0xf4, 0xf5, 0xf7, 0xf8, 0xfc, 0xfe, 0xff, 0x80, 0xbf, 0xc0, 0xc1):
+                for k in range(0, 4):
+                    for cont in ((0x80,), (0xbf,)) if k else ((),):
+                        seq = bytes([lead]) + bytes(cont) * k
+                        for where, body in (('end', b'ab' + seq), ('start', seq + b'ab'), ('alone', seq), ('before-escape', seq + b'\\n')):
+                            if q == "'" and where in ('end', 'start'):
+                                continue
+                            text = (decl.replace('char', {'': 'char', 'L': 'int', 'u': 'unsigned short', 'U': 'unsigned', 'u8': 'unsigned char'}[pre]) + pre + q).encode() + body + (q + ';\n').encode()
+                            add('utf8-in-literal/%s%s/%02x+%d*%s/%s' % (pre, 'str' if q == '"' else 'chr', lead, k, '%02x' % cont[0] if cont else '-', where), text)
+                            if where == 'alone':
+                                add('utf8-in-literal/%s%s/%02x+%d/unterminated' % (pre, 'str' if q == '"' else 'chr', lead, k), text[:-3])
     # type origins x type consumers (most are valid; the invalid combinations must be diagnosed, not crash)
     for label, data in typegrid(quick):
         add(label, data)
@@ -260,6 +275,41 @@ def generated(quick):
 
 # ---------------------------------------------------------------------------
 # I/O faults (plain binary, real descriptors)
+
+
+def multi_inputs(chk):
+    """Several input files on one command line (the scanner chain): every ordered pair and triple over a small set of files,
+    including an empty file, a file without a final newline, a file that ends inside a construct, the same file twice and a
+    missing file, with and without -E; the sanitized build, the status and the report are examined."""
+    exe = build.get('asan')
+    env = dict(os.environ)
+    env.update(fs.SAN_ENV)
+    work = tempfile.mkdtemp(prefix='c19mi.')
+    n = 0
+    try:
+        texts = {'a.c': b'int a;\n', 'b.c': b'int b = 1;\nint fb(void) { return b; }\n', 'empty.c': b'', 'nonl.c': b'int nonl', 'semi.c': b';\n',
+                 'open.c': b'int fo(void) {\n', 'close.c': b'return 0; }\n', 'def.c': b'#define M 3\n', 'use.c': b'int u = M;\n', 'comment.c': b'/* open', 'err.c': b'int e = ;\n'}
+        for name, t in texts.items():
+            open(os.path.join(work, name), 'wb').write(t)
+        names = sorted(texts) + ['missing.c']
+        combos = [(x, y) for x in names for y in names] + [(x, y, z) for x in ('a.c', 'empty.c', 'open.c', 'def.c') for y in names for z in ('b.c', 'close.c', 'use.c', 'empty.c')]
+        for combo in combos:
+            for pp in ((), ('-E',)):
+                n += 1
+                try:
+                    p = subprocess.run([exe] + list(pp) + list(combo), cwd=work, stdout=subprocess.PIPE, stderr=subprocess.PIPE, env=env, timeout=20)
+                    status, err = p.returncode, p.stderr
+                except subprocess.TimeoutExpired:
+                    status, err = 'timeout', b''
+                status = 1000 - status if isinstance(status, int) and status < 0 else status
+                k = 'timeout' if status == 'timeout' else classify(status, err)
+                if k:
+                    chk.violation('multi-input/' + k, 'command line %s %s: %s' % (' '.join(pp), ' '.join(combo), k),
+                                  files=dict({c: texts.get(c, b'') for c in combo if c in texts}, **{'sanitizer-report.txt': err}),
+                                  cmd='$CPROC_QBE %s %s > /dev/null; echo "status=$? (expected 0, 1 or 2)"' % (' '.join(pp), ' '.join(combo)))
+    finally:
+        shutil.rmtree(work, ignore_errors=True)
+    return n
 
 
 def io_faults(chk):
@@ -393,6 +443,9 @@ def main(chk):
             nrun += 1
             statuses[status] = statuses.get(status, 0) + 1
             if k:
+                if label.startswith('D0'):
+                    # an unmodified corpus file is a valid program: a crash on it is never covered by a known crash-site class
+                    k = 'valid-input/%s/%s' % (name, k)
                 c = classes.setdefault(k, {'n': 0, 'first': None})
                 c['n'] += 1
                 if c['first'] is None or len(data) < len(c['first'][2]):
@@ -413,7 +466,7 @@ def main(chk):
         else:
             srv = fs.server('fs-asan')
             r = srv.run(args, data, 0, 10)
-            if classify(r.status, r.err) != k:
+            if classify(r.status, r.err) != (k.split('/', 2)[2] if k.startswith('valid-input/') else k):
                 chk.notes.append('flaky: %s %s first %s then %s' % (name, label, k, classify(r.status, r.err)))
         p = subprocess.run('%s %s < /dev/stdin' % (plain, ' '.join(args)), shell=True, input=data, stdout=subprocess.DEVNULL, stderr=subprocess.PIPE, timeout=60) \
             if k != 'timeout' else None
@@ -426,6 +479,7 @@ def main(chk):
             chk.viol[key]['count'] = c['n']
             chk.nviol += c['n'] - 1
     nio = io_faults(chk) if chk.want('io') else 0
+    nio += multi_inputs(chk) if chk.want('multi') else 0
     sample_mut = next(iter(mutants(files[0][0], files[0][1], True, True)))
     cov = {
         'evaluations': nrun + nio,
